@@ -225,6 +225,38 @@ def check_reset(model, rep, R='C12.reset'):
     rep.require(R, 9)
 
 
+def check_stateless(model, rep, R='C12.reset'):
+    """Powertrain.reset restores the elements and the clock only.  Everything else a schedule touches - control
+    rules, the controller, sensors, timers, stop conditions - is reused as is by the rerun, so the methods the solver
+    calls on them each instant must not keep state on the object (or anywhere else)."""
+    from sa.extract import purity_scan
+    targets = []
+    for base, meths in (('RuleBase', ('apply',)), ('MotorControlBase', ('apply_rules',)), ('SensorBase', ('get_value',)),
+                        ('Timer', ('is_active',)), ('StopCondition', ('check_condition',))):
+        for cls in [base] + sorted(model.subclasses(base, strict=True)):
+            for name in meths:
+                m = model.find_member(cls, name)
+                if m is not None and m.cls == cls:
+                    targets.append(m)
+    for mod_, fn in sorted(model.functions.values(), key=lambda x: (x[0], x[1].name)):
+        if '/motor_control/rules/' in mod_:
+            targets.append((mod_, fn))
+    n = 0
+    for t in targets:
+        if isinstance(t, tuple):
+            mod_, fn = t
+            bad = purity_scan(model, None, fn, ())
+            cons, loc = f'{fn.name}:stateless', f'{mod_}:{fn.lineno}'
+        else:
+            bad = purity_scan(model, t.cls, t.node, ())
+            cons, loc = f'{t.qualname}:stateless', t.loc
+        n += 1
+        rep.decide(not bad, R, cons, f'it {bad[0][1] if bad else ""}: state kept outside the elements survives Powertrain.reset(), '
+                   f'so run, reset, rerun on the same objects differs from the first run', loc=loc if not bad else loc.rsplit(":", 1)[0] + f':{bad[0][0]}')
+    rep.inspect(n)
+    rep.analysed['per_instant_methods_scanned_for_state'] = n
+
+
 def check(model, rep):
     rep.explain('C12: on the solver IR the continuation branch of Solver.run must reach the stepping loop without writing '
                 'element state, recording, appending an instant or re-initialising solver state with constants, and step from '
@@ -237,6 +269,7 @@ def check(model, rep):
     except CannotDecide as e:
         rep.cannot('C12.cont', 'Solver.run', str(e))
     check_reset(model, rep)
+    check_stateless(model, rep)
     rep.require('C12.state', 1)
     rep.require('C12.cont', 3)
     rep.require('C12.unit', 1)
